@@ -1764,3 +1764,121 @@ Definition lm_scope (C : codec) (cvi cvt : N -> res N) (ic tc ac : codec) (stdt 
                                 | None => false
                                 end) cs in
   [N.of_nat (length inscope); N.of_nat (length agree)].
+
+(* ---------- the other half of "or refuse": where the list machine is undefined BECAUSE a range
+   or an index is out of bounds, the bit-level machine panics ---------- *)
+Section Refuses.
+Variable C : codec.
+Variable dbg : bool.
+Hypothesis OK : codec_ok C.
+Variables (cvi cvt : N -> res N) (ic tc ac : codec) (stdt : list tres) (stdc : list (N * cres)).
+Local Notation B := (c_bits C).
+
+Lemma lindex_oob xs f a b :
+  (f <= 6)%N -> lindex xs f a b = None -> index C (encode B xs) f a b = None.
+Proof.
+  intros F H. unfold lindex in H. apply N.leb_le in F.
+  assert (F' : (6 <? f)%N = false) by (apply N.ltb_ge; apply N.leb_le; exact F). rewrite F' in H.
+  apply N.leb_le in F.
+  destruct (index_forms C xs a b) as [E1 [E2 [E3 [E4 [E5 E6]]]]].
+  assert (Hf : (f = 0 \/ f = 1 \/ f = 2 \/ f = 3 \/ f = 4 \/ f = 5 \/ f = 6)%N) by lia.
+  destruct Hf as [-> | [-> | [-> | [-> | [-> | [-> | ->]]]]]]; cbn [ibounds] in H;
+    match type of H with
+    | (if (?s <=? ?e) && (?e <=? _) then _ else _) = _ =>
+        destruct (Nat.leb_spec s e) as [L1|L1]; cbn [andb] in H;
+        [destruct (Nat.leb_spec e (length xs)) as [L2|L2]; [discriminate|]|]
+    end.
+  - apply (index_range_out C OK). right. exact L2.
+  - apply (index_range_out C OK). left. exact L1.
+  - rewrite E1. apply (index_range_out C OK). right. exact L2.
+  - rewrite E1. apply (index_range_out C OK). left. exact L1.
+  - rewrite E2. apply (index_range_out C OK). right. exact L2.
+  - lia.
+  - rewrite E3. apply (index_range_out C OK). right. exact L2.
+  - lia.
+  - lia.
+  - apply (index_from_out C OK). exact L1.
+  - lia.
+  - lia.
+  - rewrite E6. apply (index_range_out C OK). right. exact L2.
+  - lia.
+Qed.
+
+(* a nest of ranges, all of a known form, that leaves the sequence at some level *)
+Fixpoint forms_ok (rs : list (N * N * N)) : bool :=
+  match rs with
+  | [] => true
+  | (f, _, _) :: t => (f <=? 6)%N && forms_ok t
+  end.
+
+Lemma lapply_oob rs : forall xs,
+  Forall (good C) xs -> forms_ok rs = true -> lapply xs rs = None ->
+  apply_ranges C (encode B xs) rs = None.
+Proof.
+  induction rs as [|[[f a] b] t IH]; intros xs G F H; cbn [lapply apply_ranges forms_ok] in *;
+    [discriminate|].
+  apply andb_prop in F. destruct F as [F1 F2]. apply N.leb_le in F1. unfold nn.
+  destruct (lindex xs f (N.to_nat a) (N.to_nat b)) as [ys|] eqn:E.
+  - rewrite (lindex_sound C _ _ _ _ _ E). cbn [bind]. apply IH; try assumption.
+    eapply lindex_good; eassumption.
+  - rewrite (lindex_oob _ _ _ _ F1 E). reflexivity.
+Qed.
+
+Theorem slice_out_of_bounds_panics st l r rs xs :
+  abs C st l -> lget l r = Some xs -> forms_ok rs = true -> lapply xs rs = None ->
+  slice_of C st (SD r rs) = None.
+Proof.
+  intros A G F H. cbn [slice_of]. destruct (get_abs C _ _ _ _ A G) as [G1 G2]. rewrite G1. cbn [bind].
+  apply lapply_oob; assumption.
+Qed.
+
+(* every observer / copy of an out-of-bounds slice panics, whatever else the script did before *)
+Theorem out_of_bounds_observation_panics st l r rs xs :
+  abs C st l -> lget l r = Some xs -> forms_ok rs = true -> lapply xs rs = None ->
+  let d := SD r rs in
+  let stepv := step C dbg cvi cvt ic tc ac stdt stdc st in
+  stepv (OCodes d) = None /\ stepv (OLen d) = None /\ stepv (ODisplay d) = None /\
+  stepv (OToOwned d) = None /\ stepv (ORevIter d) = None /\
+  (forall i, stepv (ONth d i) = None) /\ (forall i, stepv (OGet d i) = None) /\
+  (forall w, stepv (OWindows d w) = None) /\ (forall w, stepv (OChunks d w) = None) /\
+  stepv (OToUsize d) = None /\ stepv (OToRev d) = None.
+Proof.
+  intros A G F H d stepv.
+  pose proof (slice_out_of_bounds_panics _ _ _ _ _ A G F H) as S. fold d in S.
+  unfold stepv. repeat split; intros; cbn [step]; rewrite S; reflexivity.
+Qed.
+
+(* positional access at or beyond the end: nth panics, get answers None *)
+Theorem nth_beyond_end_panics st l d xs i :
+  abs C st l -> lslice l d = Some xs -> length xs <= N.to_nat i ->
+  step C dbg cvi cvt ic tc ac stdt stdc st (ONth d i) = None /\
+  exists st', step C dbg cvi cvt ic tc ac stdt stdc st (OGet d i) = Some st' /\ out st' = [0%N] :: out st.
+Proof.
+  intros A S L. destruct (slice_abs C _ _ _ _ A S) as [S1 G]. split; cbn [step]; rewrite S1; cbn [bind].
+  - unfold nn. rewrite (nth_sym_out C OK) by exact L. reflexivity.
+  - unfold nn. rewrite (get_sym_spec C OK) by (apply good_small; exact G).
+    assert (E : (length xs <=? N.to_nat i) = true) by (apply Nat.leb_le; exact L). rewrite E. cbn [bind].
+    eexists. split; reflexivity.
+Qed.
+
+(* inserting beyond the end panics *)
+Theorem insert_beyond_end_panics st l r i d xs ys :
+  abs C st l -> lget l r = Some xs -> lslice l d = Some ys -> length xs < N.to_nat i ->
+  step C dbg cvi cvt ic tc ac stdt stdc st (OInsert r i d) = None.
+Proof.
+  intros A G S L. destruct (get_abs C _ _ _ _ A G) as [G1 _].
+  destruct (slice_abs C _ _ _ _ A S) as [S1 _]. cbn [step]. rewrite G1. cbn [bind]. rewrite S1. cbn [bind].
+  unfold nn. rewrite (insert_spec C OK).
+  assert (E : (N.to_nat i <=? length xs) = false) by (apply Nat.leb_gt; exact L). rewrite E. reflexivity.
+Qed.
+
+(* on every script the list machine accepts, the debug and the release build observe the same *)
+Theorem profiles_agree ops l' :
+  lm_run C cvi cvt ic tc ac stdt stdc {| lregs := []; lk := None; lct := []; lout := [] |} ops = Some l' ->
+  VM.run C true cvi cvt ic tc ac stdt stdc ops = VM.run C false cvi cvt ic tc ac stdt stdc ops.
+Proof.
+  intros H. rewrite (script_refines C true OK _ _ _ _ _ _ _ _ _ H).
+  rewrite (script_refines C false OK _ _ _ _ _ _ _ _ _ H). reflexivity.
+Qed.
+
+End Refuses.
